@@ -12,7 +12,9 @@ from hydrodiy.data.signatures import goue
 from hydrodiy.stat import metrics
 
 PROPERTY = "C08"
-RULE = ("(a) Hypothesis: aggregation index built from run lengths (constant, "
+RULE = ("(sizes sub-check: series of 255..1025 (thorough 127..65537) values in "
+        "groups of 1, 7, n/2 and n values, all operators.) " +
+        "(a) Hypothesis: aggregation index built from run lengths (constant, "
         "strictly increasing, runs of random length) offset by -2^31, 0 or "
         "2^31-40-ish, length 1..60 (thorough up to 5000); inputs normal*10 / "
         "all negative / zeros with NaN placed per group so that leading, "
@@ -305,7 +307,44 @@ def m2d_oracle(case):
             + (["leap-february"] if leapfeb else [])}
 
 
+def enum_sizes(tier):
+    """Series lengths and group lengths at and around powers of two."""
+    ns = [255, 256, 257, 1023, 1024, 1025] if tier == "quick" else \
+        [127, 128, 129, 255, 256, 257, 511, 512, 513, 1023, 1024, 1025,
+         4095, 4096, 4097, 65535, 65536, 65537]
+    for n in ns:
+        for layout in ("singletons", "one-group", "sevens", "halves"):
+            if n > 5000 and layout == "singletons":
+                continue        # (the reference loops over the groups)
+            for op in range(4):
+                yield {"n": n, "layout": layout, "op": op}
+
+
+def sizes_oracle(case):
+    n, layout, op = case["n"], case["layout"], case["op"]
+    rng = np.random.RandomState(n * 10 + op)
+    if layout == "singletons":
+        runs = [1] * n
+    elif layout == "one-group":
+        runs = [n]
+    elif layout == "sevens":
+        runs = [7] * (n // 7) + ([n % 7] if n % 7 else [])
+    else:
+        runs = [n // 2, n - n // 2]
+    vals = np.round(rng.normal(size=n) * 10, 3)
+    nanmask = rng.uniform(size=n) < 0.05
+    full = {"runs": runs, "gaps": [1] * len(runs), "offset": 199501,
+            "spread": None, "vals": vals.tolist(),
+            "nan": nanmask.tolist(), "op": op,
+            "maxnan": [0, 1, n][op % 3], "drop_at": n // 2,
+            "regime": "normal", "icont": ["int64", "int32"][op % 2]}
+    res = agg_oracle(full)
+    return {"nt": True, "labels": [f"n:{n}", f"layout:{layout}"]}
+
+
 SUBS = [
+    Sub("C08.sizes-around-powers-of-two", sizes_oracle, enumerate=enum_sizes,
+        shards=(16, 16)),
     Sub("C08.aggregate+flathomogen", agg_oracle, strategy=agg_case,
         n=(700, 20000), shards=(8, 16)),
     Sub("C08.monthly2daily", m2d_oracle, strategy=m2d_case,
